@@ -32,6 +32,48 @@ type c05Timing struct {
 	early      map[string]bool // payloads (hash) that reached this incarnation while it was at a lower height
 }
 
+// subscribedInCall: the library (re)issued the transaction subscription inside this call.
+func subscribedInCall(st *Step) bool {
+	for i := range st.Outs {
+		if st.Outs[i].Kind == OSubscribe {
+			return true
+		}
+	}
+	return false
+}
+
+// armedFor returns the durations of every Timer.Reset for (h, v) made in the call, in order.
+// Whether the initialisation arms its own timer before or after replaying the cached payloads
+// (which may re-arm it) is the library's choice: the timing rules are met if ANY of these
+// satisfies them.
+func armedFor(st *Step, h uint32, v byte) []int64 {
+	var ds []int64
+	for i := range st.Outs {
+		if o := &st.Outs[i]; o.Kind == OTimerReset && o.H == h && o.V == v {
+			ds = append(ds, int64(o.D))
+		}
+	}
+	return ds
+}
+
+func anyAtLeast(ds []int64, x int64) bool {
+	for _, d := range ds {
+		if d >= x {
+			return true
+		}
+	}
+	return false
+}
+
+func anyAtMost(ds []int64, x int64) bool {
+	for _, d := range ds {
+		if d <= x {
+			return true
+		}
+	}
+	return false
+}
+
 func (o *OracleC05) timing(n *Node) *c05Timing {
 	t := o.tm[n.id]
 	if t == nil || t.inc != n.inc {
@@ -233,7 +275,7 @@ func (o *OracleC05) AfterCall(n *Node, st *Step) {
 			// (the round-trip estimator lives across heights by design: the wait may be shorter
 			// by what this incarnation can have measured, see the wave-12 rule below)
 			full := ref.backV[d.ViewNumber]
-			if int64(last.D) < int64(full)-o.timing(n).maxRT {
+			if !anyAtLeast(armedFor(st, d.BlockIndex, d.ViewNumber), int64(full)-o.timing(n).maxRT) {
 				o.viol(n, "timer_shortened_without_previous_proposal", "height %d view %d: the node never held a proposal of height %d, yet the timer armed on entering the view is %v instead of the full %v", d.BlockIndex, d.ViewNumber, d.BlockIndex-1, last.D, full)
 				return
 			}
@@ -285,7 +327,7 @@ func (o *OracleC05) AfterCall(n *Node, st *Step) {
 		case vs.PreBlockProcessed:
 			o.viol(n, "stale_preblock_flag_after_reset", "height %d: the pre-block still counts as processed", d.BlockIndex)
 			return
-		case vs.TxSubscriptionOn:
+		case vs.TxSubscriptionOn && !subscribedInCall(st):
 			o.viol(n, "stale_subscription_after_reset", "height %d: the transaction subscription of the previous height is still on", d.BlockIndex)
 			return
 		case len(d.Transactions) != 0 || len(d.MissingTransactions) != 0 || len(d.TransactionHashes) != 0:
@@ -368,7 +410,7 @@ func (o *OracleC05) AfterCall(n *Node, st *Step) {
 				}
 				if !ref.ok {
 					s.note("no_timer_reference")
-				} else if int64(last.D) < int64(full)-o.timing(n).maxRT {
+				} else if !anyAtLeast(armedFor(st, tip+1, 0), int64(full)-o.timing(n).maxRT) {
 					o.viol(n, "timer_shortened_by_older_height", "height %d: the node never held a proposal of height %d, yet the timer armed by its initialisation is %v instead of the full %v", tip+1, tip, last.D, full)
 					return
 				}
@@ -400,7 +442,7 @@ func (o *OracleC05) AfterCall(n *Node, st *Step) {
 			}
 			if !ref.ok {
 				s.note("no_timer_reference")
-			} else if last.D > full {
+			} else if !anyAtMost(armedFor(st, tip+1, 0), int64(full)) {
 				o.viol(n, "timer_longer_than_full_after_reset", "height %d: the timer armed by the initialisation is %v, the full one is %v", tip+1, last.D, full)
 				return
 			}
@@ -481,7 +523,7 @@ func (o *OracleC05) AfterCall(n *Node, st *Step) {
 			}
 			least := int64(full) - (s.now - at) - tmg.maxRT
 			if ref.ok && least > 0 {
-				if int64(last.D) < least {
+				if !anyAtLeast(armedFor(st, tip+1, 0), least) {
 					o.viol(n, "timer_shortened_beyond_elapsed_time_and_round_trip", "height %d: the full timer is %v, this incarnation entered height %d only %.3f s ago and no round trip it can have measured exceeds %.3f s, yet the timer armed by the initialisation is %v", tip+1, full, tip, float64(s.now-at)/1e9, float64(tmg.maxRT)/1e9, last.D)
 					return
 				}
